@@ -23,6 +23,64 @@ EXPLANATION = (
 )
 
 
+def consistency_args_rule(f, root_name):
+    """The function whose boolean result decides InconsistentRule (a crate function called by the constructor with
+    the constructor's own parameter types, returning bool) receives exactly the constructor's arguments, in order
+    (identity of abstract values at its entry: value numbering, no arithmetic or swap on the way)."""
+    from ..ai.exec import Exec
+    from ..ai.invariants import INVARIANTS
+    from ..ai.models import M
+    from ..ai.values import Ref
+    from ..epath import CFG
+    from .c13 import same_shape
+
+    insts = [i for i in f.instances if i["name"] == root_name]
+    if not insts:
+        return False, "constructor not found"
+    root = insts[0]
+    n = root["body"]["arg_count"]
+    sig_root = [f.ty_canon(root["body"]["locals"][i + 1]["ty"]) for i in range(n)]
+
+    def norm(t):
+        return t.lstrip("&")
+
+    cands = []
+    for _, _, r in CFG(root).calls():
+        if r is not None and r.get("local") and "inst" in r:
+            ci = f.instances[r["inst"]]
+            if ci.get("body") is None or ci.get("closure"):
+                continue
+            ins = [f.ty_canon(ci["body"]["locals"][i + 1]["ty"]) for i in range(ci["body"]["arg_count"])]
+            out = f.ty_canon(ci["body"]["locals"][0]["ty"])
+            if out == "bool" and len(ins) == n and [norm(x) for x in ins] == [norm(x) for x in sig_root]:
+                cands.append(ci)
+    if not cands:
+        return True, "not decided on this tree: no boolean crate function takes the constructor's six parameter types"
+    if len({c["id"] for c in cands}) != 1:
+        return False, "expected one boolean crate function taking the constructor's six parameter types; found %d" % len({c["id"] for c in cands})
+    C = cands[0]
+    seen = {}
+
+    def hook(ev, **kw):
+        if ev == "enter" and kw["inst"]["id"] == C["id"] and "args" not in seen:
+            I_, S_ = kw["interp"], kw["state"]
+            seen["args"] = [I_.read(S_, a.cell, a.path, ("c11a", k)) if isinstance(a, Ref) and a.cell is not None else a for k, a in enumerate(kw["args"])]
+
+    def mk(I_, S_, inst_, args_):
+        seen["ctor"] = [I_.read(S_, a.cell, a.path, ("c11c", k)) if isinstance(a, Ref) and a.cell is not None else a for k, a in enumerate(args_)]
+        return args_
+
+    I = Exec(f, M, INVARIANTS)
+    I.hooks.append(hook)
+    I.analyse_root(root, mk)
+    if "args" not in seen or "ctor" not in seen:
+        return False, "the consistency check %s is never entered" % C["name"]
+    bad = [k for k in range(n) if not same_shape(seen["args"][k], seen["ctor"][k])]
+    if bad:
+        return False, "argument(s) %s of %s are not the constructor's argument(s) at the same position" % (bad, C["name"])
+    return True, "%s receives the constructor's %d arguments in order" % (C["name"], n)
+
+
 def check(run, tier):
     configs = ["std"] if tier == "quick" else ["std", "nofeat"]
     facts = get_facts(run, configs)
@@ -54,8 +112,15 @@ def check(run, tier):
                     n += 1
                     run.obligation(ok)
                     run.sample({"rule": "ACCEPT", "case": "Err/InvalidDstStartEndTime", "dst_start_time": fmt(a), "dst_end_time": fmt(b)})
+        # ARGS: the consistency verdict is asked about exactly the constructor's six arguments, in order
+        okargs, detail = consistency_args_rule(f, root)
+        n += 1
+        run.obligation(okargs)
+        run.sample({"rule": "ARGS", "verdict": detail})
+        if not okargs:
+            run.finding("ARGS", "%s|consistency-args" % cfg, "AlternateTime::new does not hand its six arguments, in order (standard type, daylight type, start day, start time, end day, end time), to the consistency check: %s" % detail, f.item_by_path.get(root, {}).get("span"))
     run.rule("ACCEPT", n)
-    run.floor("regions_compared", n, 13)
+    run.floor("regions_compared", n, 14)
     run.trusted += ["E-AI (see C07)", "window constants transcribed from the property statement: (-25h, +26h), +-7 days"]
     run.explanation = EXPLANATION
     run.extra["not_decided"] = ["check_dst_transition_rules_consistency is equivalent to 'the order of start and end never flips'"]
